@@ -14,7 +14,7 @@ input:
   tick <n>
   end
 ops:
-  sched <sid> <qz|-> <dl|-> <count|-> <rwd> <name|-> <replace> | upd <tid> <sid> <qz|-> <dl|-> <count|->
+  sched <sid> <qz|-> <dl|-> <count|-> <rwd> <name|-> <replace> | schedat <idx> <sid> <qz|-> <dl|-> <count|-> <rwd> | upd <tid> <sid> <qz|-> <dl|-> <count|->
   unsched <tid> | clear | mute <tid> | unmute <tid> | nudge <tid> <x> | max <n> | defaults <qz> <dl>
   swd <b> | latency <l>
 output (one line per op, one per tick that is not silent-and-ok, one per end):
@@ -29,6 +29,8 @@ open IsobarV.Sched IsobarV.Util
 def parseOp : List String → Option Op
   | ["sched", sid, qz, dl, count, rwd, name, replace] =>
     some (.schedule (toNat! sid) (toOptNat qz) (toOptNat dl) (toOptNat count) (toBool! rwd) (toOptNat name) (toBool! replace))
+  | ["schedat", idx, sid, qz, dl, count, rwd] =>
+    some (.scheduleAt (toNat! idx) (toNat! sid) (toOptNat qz) (toOptNat dl) (toOptNat count) (toBool! rwd))
   | ["upd", tid, sid, qz, dl, count] =>
     some (.update (toNat! tid) (toNat! sid) (toOptNat qz) (toOptNat dl) (toOptNat count))
   | ["unsched", tid] => some (.unschedule (toNat! tid))
